@@ -79,6 +79,7 @@ struct Play {
     story_json: String,
     seed: i32,
     slice: u32,
+    fuel: u64,
     vars: Vec<String>,
     visits: Vec<String>,
 }
@@ -132,6 +133,8 @@ fn run_segment(st: &mut Story, slice: u32, lines: &mut Vec<J>) -> String {
 impl Play {
     fn node(&self, path: &[usize]) -> (J, usize) {
         bladeink::verif::set_forced_seed(Some(self.seed));
+        // the step budget is per replayed path (every node is played from a fresh story)
+        bladeink::verif::set_fuel(Some(self.fuel));
         let js = self.story_json.clone();
         let r = catch_unwind(AssertUnwindSafe(|| -> (J, usize) {
             let mut st = match Story::new(&js) {
@@ -230,6 +233,7 @@ fn run_case(case: &J) -> J {
         story_json,
         seed: case.get("seed").and_then(|x| x.as_i64()).unwrap_or(42) as i32,
         slice: case.get("slice").and_then(|x| x.as_u64()).unwrap_or(0) as u32,
+        fuel,
         vars: strs(case.get("vars")),
         visits: strs(case.get("visits")),
     };
